@@ -174,9 +174,10 @@ pub fn db_checks(db: &GrafeoDB, model: &Model, ids: &IdMap) -> Result<(), Failur
             }
         }
     }
-    // integrity report: exactly the dangling references, nothing for a graph without them
+    // integrity report: every dangling reference is reported (documented), and nothing at all for a graph without them
     let rep = guard("validate", || db.validate())?;
-    let mut got: Vec<(String, String)> = rep.errors.iter().map(|e| (e.code.clone(), e.context.clone().unwrap_or_default())).collect();
+    let all: Vec<(String, String)> = rep.errors.iter().map(|e| (e.code.clone(), e.context.clone().unwrap_or_default())).collect();
+    let mut got: Vec<(String, String)> = all.iter().filter(|e| e.0.starts_with("DANGLING")).cloned().collect();
     got.sort();
     let mut exp: Vec<(String, String)> = Vec::new();
     for (e, s, d) in model.dangling() {
@@ -189,12 +190,14 @@ pub fn db_checks(db: &GrafeoDB, model: &Model, ids: &IdMap) -> Result<(), Failur
         }
     }
     exp.sort();
-    if got != exp {
-        let sig = if exp.is_empty() { "c14/engine/validate/error-without-dangling-edge" } else { "c14/engine/validate/dangling-set" };
-        return fail(sig, format!("validate() errors {got:?}, model's dangling references {exp:?}"));
+    if exp.is_empty() && !all.is_empty() {
+        return fail("c14/engine/validate/error-without-dangling-edge", format!("validate() errors {all:?} on a graph without dangling edges"));
     }
-    if rep.is_valid() != exp.is_empty() {
-        return fail("c14/engine/validate/is_valid", format!("is_valid {} with errors {got:?}", rep.is_valid()));
+    if got != exp {
+        return fail("c14/engine/validate/dangling-set", format!("validate() dangling errors {got:?}, model's dangling references {exp:?}"));
+    }
+    if rep.is_valid() != all.is_empty() {
+        return fail("c14/engine/validate/is_valid", format!("is_valid {} with errors {all:?}", rep.is_valid()));
     }
     Ok(())
 }
